@@ -123,7 +123,13 @@ def np_namespace(ctx, space):
             return all(bool(x) for x in v)
         except TypeError:
             return bool(v)
-    return Namespace("np", any=Native(any_, "np.any"), all=Native(all_, "np.all"), concatenate=Native(concatenate, "np.concatenate"), split=Native(split, "np.split"),
+    def isfinite(ex, v):
+        # whether a value returned by a user model function is finite is not determined by the function's contract: explored both ways
+        import math as _m
+        if isinstance(v, (int, float)) and not isinstance(v, bool):
+            return _m.isfinite(v)
+        return bool(ex.ctx.choose(2, "np.isfinite(user value)"))
+    return Namespace("np", isfinite=Native(isfinite, "np.isfinite"), any=Native(any_, "np.any"), all=Native(all_, "np.all"), concatenate=Native(concatenate, "np.concatenate"), split=Native(split, "np.split"),
                      sign=Native(sign, "np.sign"), zeros_like=Native(zeros_like, "np.zeros_like"),
                      isnan=Native(isnan, "np.isnan"), nan=float("nan"), inf=float("inf"))
 
